@@ -14,6 +14,13 @@ GOENV.pop("GOTOOLCHAIN", None)
 GOENV.pop("GOSUMDB", None)
 
 
+def go_re(rx):
+    """compile a regexp of the common RE2 / Python subset with Go's semantics for `$` (end of text only,
+    not before a final newline); the generators only use `$` as the end anchor"""
+    import re
+    return re.compile(rx.replace("$", r"\Z"))
+
+
 class Num(str):
     """JSON number kept as its literal text."""
     __slots__ = ()
